@@ -49,12 +49,37 @@ def write_legacy_stats(path, s):
         f["sumPxx"] = np.asarray(s.sum_pxx)
 
 
+def _isolated_dask_round_trip(chk, r, tmpd):
+    """A machine trained on a Dask array by workers that see serialised copies (weights and variances updated), then saved and read back:
+    the reloaded machine scores the samples exactly like the machine that was saved."""
+    from .. import dasksched
+    from ..impl import da
+    for j in range(3 if chk.tier == "quick" else 30):
+        w, mu, var, s, X = gt.gen_training(r, C=2, N=12, scale="unit")
+        m = make_gmm(w, mu + 0.5 * s, var, max_fitting_steps=2, convergence_threshold=None, update_means=True, update_variances=True, update_weights=True)
+        try:
+            dasksched.run_under(31 + j, True, lambda: m.fit(da.from_array(X, chunks=((5, len(X) - 5), (X.shape[1],)))))
+        except Exception as e:
+            chk.fail("GMM training on a Dask array with serialised tasks raises %r" % (e,), {"X": hexlist(X)})
+            continue
+        path = os.path.join(tmpd, "iso%d.h5" % j)
+        m.save(path)
+        m2 = GMMMachine.from_hdf5(path)
+        os.remove(path)
+        chk.count(1, key=("machine", "trained on isolated Dask workers, then saved and reloaded"))
+        a_, b_ = np.asarray(m.log_likelihood(X)), np.asarray(m2.log_likelihood(X))
+        if not np.allclose(a_, b_, rtol=1e-12, atol=1e-12):
+            chk.fail("a machine trained on a Dask array by serialised workers and then saved scores the samples %s, the machine read back from the file %s (equal parameters)"
+                     % (a_.tolist(), b_.tolist()), {"X": hexlist(X), "w": hexlist(w), "mu": hexlist(mu + 0.5 * s), "var": hexlist(var)})
+
+
 def run(chk):
     chk.prove()
     r = gen.rng(chk.seed, "C18")
     n_cases = 40 if chk.tier == "quick" else 2000
     tmpd = tempfile.mkdtemp(prefix="c18_")
     atexit.register(shutil.rmtree, tmpd, ignore_errors=True)
+    _isolated_dask_round_trip(chk, gen.rng(chk.seed, "C18-isolated"), tmpd)
     for i in range(n_cases):
         C, D = r.choice([1, 2, 3]), r.choice([1, 2, 3])
         if i % 8 == 5:
